@@ -22,10 +22,23 @@
                           — an accepted reply with any one byte altered is rejected
   * `intact_reply_accepted` — the reply of the specification's figure to the outstanding request is
                             accepted under every flag setting (the filter is not vacuous)
+  Through the LAN transport, which may unwrap a Send Message response BEFORE the filter sees the frame
+  (`Bridge.classifyRx`, the loop body of `Rmcp._send_and_receive`; `repaired` = with fixes/C09-1.diff):
+  * `wrapper_verification_in_source`
+                          — the working tree verifies both checksums of a wrapper before it unwraps it
+                            (AST of decode_bridged_message / is_send_message_response, Gen/IpmbFilter)
+  * `accepted_frame_is_intact` — whatever frame the transport accepts, plain or wrapped to any depth, bridged
+                            request or not: both checksums of the RECEIVED frame verify
+  * `transport_single_byte_corruption_rejected`
+                          — … so an accepted frame with any one byte altered — a byte of any wrapper included —
+                            is rejected like every other damaged frame: no data, no exception
+  * `transport_corruption_asShipped_counterexample`
+                          — as shipped the wrapper is consumed unverified: a reply whose wrapper checksum byte
+                            is altered is accepted, and an altered completion-code byte is RAISED
 -/
-import PyIpmi.Lemmas.Ipmb
+import PyIpmi.Lemmas.IpmbBridge
 namespace PyIpmi.Props.C03
-open PyIpmi PyIpmi.Ipmb PyIpmi.Spec.Wire
+open PyIpmi PyIpmi.Ipmb PyIpmi.Bridge PyIpmi.Spec.Wire PyIpmi.Spec.Bridges
 
 theorem checksum_zero_sum (l : List Nat) : sum8 (l ++ [pyChecksum l]) = 0 ∧ pyChecksum l < 256 :=
   ⟨sum8_append_checksum l, pyChecksum_lt l⟩
@@ -122,6 +135,67 @@ theorem intact_reply_accepted (req : Hdr) (body : List Nat) (fl : Flags) (hr : r
   refine ⟨by simp [mkReply], hh, hp, ?_⟩
   simp [mkReply, rspNetfn, rspCmd, rspRsLun, rspSeq, rspRqSa, rspRsSa, rspRqLun, byteAt, e1, e2, e3, e4]
 
+/-! ### the same clause through the LAN transport (frames that arrive wrapped in Send Message responses) -/
+
+theorem wrapper_verification_in_source :
+    Gen.IpmbFilter.recogNetfn = true ∧ Gen.IpmbFilter.recogVerify = true := by decide
+
+/-- Repaired transport: a frame is accepted (data returned) only if both checksums OF THE FRAME AS
+RECEIVED verify — whether it is the reply itself or a Send Message response around it, at any depth. -/
+theorem accepted_frame_is_intact (bridge : Option Hdr) (req : Hdr) (fl : Flags) (f d : List Nat)
+    (hn : req.netfn % 2 = 0) (hb : ∀ bh, bridge = some bh → bh.netfn % 2 = 0)
+    (hacc : classifyRx .repaired bridge req fl f = .hit d) : 6 ≤ f.length ∧ hdrOk f ∧ payOk f := by
+  have plain : ∀ g, afterFilter req fl g = .hit d → 6 ≤ g.length ∧ hdrOk g ∧ payOk g := by
+    intro g hg
+    unfold afterFilter at hg
+    split at hg
+    · rename_i ht
+      have := (rxFilter_true_iff req g fl hn).1 ht
+      exact ⟨this.1, this.2.1, this.2.2.1⟩
+    · cases hg
+    · cases hg
+  cases bridge with
+  | none => exact plain f hacc
+  | some bh =>
+    simp only [classifyRx] at hacc
+    split at hacc
+    · rename_i ht
+      have := (rxFilter_true_iff bh f _ (hb bh rfl)).1 ht
+      exact ⟨this.1, this.2.1, this.2.2.1⟩
+    · exact plain f hacc
+    · cases hacc
+
+/-- Repaired transport: "a reply with any single corrupted byte is rejected", wrappers included.  The
+damaged frame is an unrelated frame like any other (`noise`): nothing is returned from it and nothing is
+raised from it. -/
+theorem transport_single_byte_corruption_rejected (bridge : Option Hdr) (req : Hdr) (fl : Flags)
+    (f d : List Nat) (i b : Nat) (hn : req.netfn % 2 = 0) (hbr : ∀ bh, bridge = some bh → bh.netfn % 2 = 0)
+    (hf : Bytes f) (hacc : classifyRx .repaired bridge req fl f = .hit d)
+    (hi : i < f.length) (hb : b < 256) (hne : b ≠ f[i]) :
+    classifyRx .repaired bridge req fl (f.set i b) = .noise := by
+  obtain ⟨h6, hh, hp⟩ := accepted_frame_is_intact bridge req fl f d hn hbr hacc
+  have hd := corrupt_breaks_sums f i b hf hi hb hne hh hp
+  have h6' : 6 ≤ (f.set i b).length := by simpa using h6
+  have hplain : afterFilter req fl (f.set i b) = .noise := by
+    simp [afterFilter, rxFilter_damaged req _ fl h6' hd]
+  cases bridge with
+  | none => exact hplain
+  | some bh => simp only [classifyRx, rxFilter_damaged bh _ _ h6' hd, hplain]
+
+def cReq : Hdr := { rsSa := 0x82, rsLun := 0, netfn := 6, rqSa := 0x20, rqLun := 0, seq := 5, cmd := 1 }
+def cLayer : Hdr := { rsSa := 0x20, rsLun := 0, netfn := 6, rqSa := 0x81, rqLun := 0, seq := 5, cmd := 0x34 }
+/-- Get Device ID reply (completion code 00h, two data bytes) in one Send Message response -/
+def cWrapped : List Nat := wrapLayer cLayer 0 (mkReply cReq [0, 0x12, 0x34])
+
+/-- As shipped nothing of the wrapper is verified: with its payload checksum (last byte) altered the
+frame is accepted all the same, and with its completion-code byte (byte 6) altered to C0h that value
+is raised as CompletionCodeError — from a frame whose checksum does not verify. -/
+theorem transport_corruption_asShipped_counterexample :
+    classifyRx .asShipped none cReq {} cWrapped = .hit [0, 0x12, 0x34] ∧
+    classifyRx .asShipped none cReq {} (cWrapped.set 17 0) = .hit [0, 0x12, 0x34] ∧
+    cWrapped[17]? ≠ some 0 ∧
+    classifyRx .asShipped none cReq {} (cWrapped.set 6 0xc0) = .err (.ccError 0xc0) := by decide
+
 /-! ### non-vacuity: concrete objects satisfying the hypotheses -/
 
 def demoReq : Hdr := { rsSa := 0x72, rsLun := 1, netfn := 6, rqSa := 0x20, rqLun := 0, seq := 2, cmd := 1 }
@@ -139,5 +213,10 @@ example : rxFilter demoReq ((mkReply demoReq [0, 0xaa, 0xbb]).set 7 0xab) {} = .
 /-- the sequence flag matters: a stale sequence number passes only when told to ignore it -/
 example : rxFilter demoReq (mkReply { demoReq with seq := 3 } [0]) {} = .ok false ∧
     rxFilter demoReq (mkReply { demoReq with seq := 3 } [0]) { rqSeq := false } = .ok true := by decide
+
+/-- the repaired transport on the same frames: accepted intact, dropped when damaged -/
+example : classifyRx .repaired (some (bridgeHdr 5)) cReq {} cWrapped = .hit [0, 0x12, 0x34] ∧
+    classifyRx .repaired (some (bridgeHdr 5)) cReq {} (cWrapped.set 17 0) = .noise ∧
+    classifyRx .repaired (some (bridgeHdr 5)) cReq {} (cWrapped.set 6 0xc0) = .noise := by decide
 
 end PyIpmi.Props.C03
